@@ -111,6 +111,43 @@ theorem fromPolar_toPolar_rad (v : Vec3 ℝ) (hv : 0 < Vec3.normSq v)
     simp only
     congr 1 <;> field_simp
 
+/-- the azimuth is always in `[0, 2π)` -/
+theorem azimuth_range (v : Vec3 ℝ) : 0 ≤ azimuth v ∧ azimuth v < 2 * Real.pi := by
+  simp only [azimuth]
+  generalize (if isclose0 v.x = true then (Scalar.lit 0 : ℝ) else v.x) = x
+  generalize (if isclose0 v.y = true then (Scalar.lit 0 : ℝ) else v.y) = y
+  simp only [atan2_real, lit_real, pi_real, lt_real, Nat.cast_zero, Nat.cast_ofNat]
+  have h1 := Complex.neg_pi_lt_arg ⟨x, y⟩
+  have h2 := Complex.arg_le_pi ⟨x, y⟩
+  have hp := Real.pi_pos
+  by_cases h : Complex.arg ⟨x, y⟩ < 0
+  · rw [if_pos h]; constructor <;> linarith
+  · rw [if_neg h]; push Not at h; constructor <;> linarith
+
+/-- the polar angle is in `[0, π]`, and at most `π/2` exactly for the vectors of the closed upper hemisphere -/
+theorem polar_range (v : Vec3 ℝ) (hv : 0 < Vec3.normSq v) :
+    0 ≤ polar v ∧ polar v ≤ Real.pi ∧ (polar v ≤ Real.pi / 2 ↔ 0 ≤ v.z) ∧ (Real.pi / 2 ≤ polar v ↔ v.z ≤ 0) := by
+  simp only [Vec3.normSq, Vec3.dot] at hv
+  have hr : 0 < Real.sqrt (v.x * v.x + v.y * v.y + v.z * v.z) := Real.sqrt_pos.mpr hv
+  simp only [polar, radial_eq, acos_real]
+  refine ⟨Real.arccos_nonneg _, Real.arccos_le_pi _, ?_, ?_⟩
+  · rw [Real.arccos_le_pi_div_two]
+    constructor
+    · intro h
+      by_contra hz
+      push Not at hz
+      have := div_neg_of_neg_of_pos hz hr
+      linarith
+    · intro h; exact div_nonneg h hr.le
+  · rw [← not_lt, Real.arccos_lt_pi_div_two, not_lt]
+    constructor
+    · intro h
+      by_contra hz
+      push Not at hz
+      have := div_pos hz hr
+      linarith
+    · intro h; exact div_nonpos_of_nonpos_of_nonneg h hr.le
+
 theorem deg_rad (a : ℝ) : deg2rad (rad2deg a) = a := by
   simp only [deg2rad, rad2deg, pi_real, lit_real]
   have := Real.pi_ne_zero
